@@ -15,7 +15,7 @@ META = {
     'technique': 'Coq proof (invariants over all event histories) on an executable model of the policies + differential '
                  'execution of the real policy objects against the model after every event',
     'level_text': 'C21_nodup / C21_exact / C21_dc_order / C21_whitelist / C21_filter / C21_default proved for every event '
-                  'history delivered as the cluster delivers it (populate first), every constructor parameter, every '
+                  'history delivered as the cluster delivers it (populate first, possibly repeated), every constructor parameter, every '
                   'set-iteration order and every rotation position, over Model/LBP.v; the model is compared with the real '
                   'RoundRobin/WhiteList/DCAware/HostFilter/Default policy objects step by step.',
     'level_note': 'Tie is by correspondence (hand-written model). Trusted: Coq kernel, the Python harness/oracle. A query plan is '
@@ -142,25 +142,25 @@ def run(ctx):
     cases, meta = [], []
     for spec, hist, targets in corpus_cases():
         run_one(ctx, spec, hist, targets, cases, meta, 'corpus')
-    nrand = 1000 if ctx.tier == 'quick' else 20000
+    nrand = 1000 if ctx.tier == 'quick' else 6000
     for _ in range(nrand):
         spec = G.gen_spec(rng)
         hist = G.gen_history(rng, spec, rng.randint(0, 7), populate=rng.random() < 0.95)
         n = len(spec['dcs'])
         targets = [[rng.randrange(n), rng.choice([True, True, None, False])]]
         run_one(ctx, spec, hist, targets, cases, meta, 'random')
-    L = 2 if ctx.tier == 'quick' else 3
     nex = 0
-    for spec, pop in EXH_SPECS:
+    for k, (spec, pop) in enumerate(EXH_SPECS):
+        L = 3 if (ctx.tier == 'thorough' and k in (0, 3, 4)) else 2
         for evs in G.exhaustive_histories(4, L):
             run_one(ctx, spec, [pop] + [list(e) for e in evs], [[1, True]], cases, meta, 'exhaustive')
             nex += 1
     ctx.exhaustive = True
     ctx.rule = ('random: policy kind/parameters/initial DCs (incl. hosts without a DC, late local_dc inference), populate + up to 7 events over '
-                '<= 6 hosts x <= 3 DCs; exhaustive: for %d fixed (policy, populate) pairs over 4 hosts x 2 DCs EVERY sequence of %d events from '
+                '<= 6 hosts x <= 3 DCs; exhaustive: for %d fixed (policy, populate) pairs over 4 hosts x 2 DCs EVERY sequence of %s events from '
                 '{up,down,add,remove,set-location dc1,set-location dc2} x 4 hosts (%d histories). After every event the state, distance() of '
                 'every host and three plans (policy itself, through HostFilterPolicy, through DefaultLoadBalancingPolicy with/without target) are '
-                'observed. Non-trivial = distinct history in which some plan has at least 2 hosts.' % (len(EXH_SPECS), L, nex))
+                'observed. Non-trivial = distinct history in which some plan has at least 2 hosts.' % (len(EXH_SPECS), '2 (thorough: 3 for three of the pairs)', nex))
     try:
         bad = ctx.coq_filter(['LBP'], '(fun b : bool => b)', cases, shard=500)
         for i in bad[:10]:
@@ -174,7 +174,8 @@ def run(ctx):
     ctx.assume('a query plan is consumed atomically with respect to membership events',
                'membership = the events delivered to the policy (DESIGN 4.0): populated/added/up minus down/removed; '
                '_update_location_info = on_down; set_location_info; on_up',
-               'populate is the first event a policy object receives (Cluster.connect / add_execution_profile)')
+               'populate hands over every host the cluster knows: it is the first event a policy object receives (Cluster.connect / '
+               'add_execution_profile), possibly repeated with the same list (legacy policy in Cluster.connect)')
 
 
 def replay(ctx, rp):
